@@ -837,3 +837,104 @@ theorem ewInner_run {inps : List (Tensor Cell)} {W : List Ax} {P : (String → N
               simpa only [ewCell, foldCells, List.zipIdx_cons, List.map_cons, Nat.zero_add, cOf] using this
           · have : (s1.shape != lens (pickCols W.length (e0 :: xs))) = true := by simpa using hsh
             simp [this, throw, throwThe, MonadExceptOf.throw, pure, Except.pure] at he
+
+/-! ### the whole elementwise pipeline -/
+
+theorem eq_of_name_eq : ∀ {L : List Ax} {a b : Ax}, (names L).Nodup → a ∈ L → b ∈ L → a.name = b.name → a = b
+  | [], _, _, _, ha, _, _ => by simp at ha
+  | x :: L, a, b, h, ha, hb, hn => by
+    simp only [names, List.map_cons, List.nodup_cons] at h
+    rcases List.mem_cons.mp ha with rfl | ha' <;> rcases List.mem_cons.mp hb with rfl | hb'
+    · rfl
+    · exact absurd (List.mem_map.mpr ⟨b, hb', hn.symm⟩) h.1
+    · exact absurd (List.mem_map.mpr ⟨a, ha', hn⟩) h.1
+    · exact eq_of_name_eq (L := L) h.2 ha' hb' hn
+
+theorem symInputs_length (shapes : List (List Nat)) : (symInputs shapes).length = shapes.length := by
+  simp [symInputs]
+
+theorem symInputs_getElem? (ins : List (List G)) (k : Nat) (e : List G) (h : ins[k]? = some e) :
+    (symInputs (ins.map gShape))[k]? = some (symInput k (gShape e)) := by
+  simp [symInputs, List.getElem?_map, List.getElem?_zipIdx, h]
+
+theorem mem_squeezedExpr_nil {e : List G} {a : Ax} : a ∈ squeezedExpr [] e ↔ a ∈ G.leavesL e ∧ a.len ≠ 1 := by
+  simp [squeezedExpr]
+
+/-- **The lowering side of elementwise operations.**  If `lowerElementwise` succeeds (output names without
+repetition, lengths consistent between every input and the output), its program runs on the symbolic inputs, and
+the result register holds, at the flat position that a valuation of the axis names addresses through the output's
+leaf axes, the elementary function applied to the input elements that the valuation addresses through the inputs'
+leaf axes. -/
+theorem lowerElementwise_run {f : String} {kind : EwKind} {ins : List (List G)} {eout : List G} {s : St}
+    (hk : ewKindOf f = some kind)
+    (hout : (names (G.leavesL eout)).Nodup)
+    (hcons : ∀ e ∈ ins, ∀ a ∈ G.leavesL e, ∀ b ∈ G.leavesL eout, a.name = b.name → a.len = b.len)
+    (h : lowerElementwise f ins eout = .ok s) :
+    (∀ e ∈ ins, (names (G.leavesL e)).Nodup ∧ ∀ a ∈ G.leavesL e, a.len ≠ 1 → a.name ∈ names (G.leavesL eout)) ∧
+    ∃ regs T, evalProg symAlg s.prog (symInputs (ins.map gShape)) = .ok regs ∧ regs[s.reg]? = some T ∧
+      T.shape = gShape eout ∧ T.data.length = prod (gShape eout) ∧
+      ∀ val, (∀ e ∈ ins, Bnd val (G.leavesL e)) → Bnd val (G.leavesL eout) →
+        T.data[ravel (lens (G.leavesL eout)) (idx (G.leavesL eout) val)]?
+          = some (ewCell f kind ((ins.zipIdx 0).map (fun x => cOf x.2 x.1 val))) := by
+  generalize hLo : G.leavesL eout = Lo at *
+  generalize hPdef : (fun val : String → Nat => (∀ e ∈ ins, Bnd val (G.leavesL e)) ∧ Bnd val Lo) = P
+  generalize hWdef : withoutBroadcast (ins.flatMap (fun e => names (squeezedExpr [] e))) Lo = W at *
+  have hWmem : ∀ b, b ∈ W ↔ b ∈ Lo ∧ ∃ e ∈ ins, b.name ∈ names (squeezedExpr [] e) := by
+    intro b
+    rw [← hWdef]
+    simp only [withoutBroadcast, List.mem_filter, List.contains_iff_mem, List.mem_flatMap]
+  have hw : WOK W P ins := by
+    refine ⟨?_, ?_, ?_, ?_⟩
+    · rw [← hWdef]; exact names_nodup_filter hout _
+    · intro val hv b hb
+      rw [← hPdef] at hv
+      exact hv.2 b ((hWmem b).mp hb).1
+    · intro b hb
+      obtain ⟨hbLo, e, he, hn⟩ := (hWmem b).mp hb
+      obtain ⟨a, ha, han⟩ := List.mem_map.mp hn
+      have := mem_squeezedExpr_nil.mp ha
+      rw [← hcons e he a this.1 b hbLo han]
+      exact this.2
+    · intro b hb
+      exact ((hWmem b).mp hb).2
+  have hok : InsOK W P ins := by
+    refine ⟨?_, ?_⟩
+    · intro e he val hv
+      rw [← hPdef] at hv
+      exact hv.1 e he
+    · intro e he a ha b hb hn
+      exact hcons e he a ha b ((hWmem b).mp hb).1 hn
+  unfold lowerElementwise at h
+  simp only [hLo, hWdef] at h
+  cases hi : Generic.ewInner f { reg := 0, shape := [], prog := [], next := ins.length } ins W with
+  | error er => simp [hi, bind, Except.bind] at h
+  | ok x =>
+    obtain ⟨exprRes, s2⟩ := x
+    simp only [hi, bind, Except.bind] at h
+    cases hstb : stb s2 exprRes Lo with
+    | error er => simp [hstb] at h
+    | ok s3 =>
+      simp only [hstb, pure, Except.pure, Except.ok.injEq] at h
+      subst h
+      have htr0 : Tr (symInputs (ins.map gShape)) { reg := 0, shape := [], prog := [], next := ins.length }
+          (symInputs (ins.map gShape)) := ⟨rfl, by simp [symInputs_length]⟩
+      obtain ⟨hres, hall, ext2, T2, hrun2, hR2⟩ := ewInner_run hk hw hok htr0 (symInputs_getElem? ins) hi
+      subst hres
+      obtain ⟨_, ext3, T3, hrun3, hR3⟩ := stb_run hrun2 hw.nodup hout hw.ne1 hw.bnd
+        (by intro val hv; rw [← hPdef] at hv; exact hv.2)
+        (by
+          intro a ha b hb hn
+          rw [eq_of_name_eq hout ((hWmem a).mp ha).1 hb hn])
+        hR2 hstb
+      obtain ⟨ext4, T4, hrun4, hsh4, hd4⟩ := reshapeW_run hrun3 (gShape eout)
+        (by rw [← hrun3.shape, hR3.1, prod_gShape_leaves, hLo])
+      refine ⟨?_, _, T4, hrun4.ev, hrun4.reg, hsh4, by rw [hrun4.len, hsh4], ?_⟩
+      · intro e he
+        refine ⟨(hall e he).1, ?_⟩
+        intro a ha hne
+        have := (hall e he).2 a.name (List.mem_map.mpr ⟨a, mem_squeezedExpr_nil.mpr ⟨ha, hne⟩, rfl⟩)
+        obtain ⟨b, hb, hbn⟩ := List.mem_map.mp this
+        exact List.mem_map.mpr ⟨b, ((hWmem b).mp hb).1, hbn⟩
+      · intro val hvi hvo
+        rw [hd4]
+        exact hR3.2 val (by rw [← hPdef]; exact ⟨hvi, hvo⟩)
